@@ -1230,28 +1230,46 @@ struct ical_parser_s {
 
 	size_t six;
 	char stash[1024U];
+	/* what esccpy() is in the middle of when a buffer ends,
+	 * '\\' for an escape sequence, '\n' for a (possibly) folded line */
+	char pend;
 };
 
 #define ICAL_EOP	((struct ical_vevent_s*)0x1U)
 
 static size_t
-esccpy(char *restrict tgt, size_t tz, const char *src, size_t sz)
+esccpy(char *restrict tgt, size_t tz, const char *src, size_t sz, char *pend)
 {
 	size_t ti = 0U;
+	size_t si = 0U;
 
-	for (size_t si = 0U; si < sz; si++) {
+	/* first finish what the previous buffer left us in the middle of */
+	if (UNLIKELY(*pend == '\n' && sz)) {
+		/* overread the white space of a folded line */
+		si += (*src == ' ' || *src == '\t');
+	} else if (UNLIKELY(*pend == '\\' && sz)) {
+		tgt[ti++] = (char)((*src == 'n' || *src == 'N') ? '\n' : *src);
+		si++;
+	}
+	if (sz) {
+		*pend = '\0';
+	}
+	for (; si < sz; si++) {
 		switch ((tgt[ti] = src[si])) {
 		case '\r':
 			break;
 		case '\n':
 			/* overread along with the next space */
-			si++;
+			if (UNLIKELY(++si >= sz)) {
+				/* the space, if any, is in the next buffer */
+				*pend = '\n';
+			}
 			break;
 		case '\\':
 			/* ah, one of them escape sequences */
 			if (UNLIKELY(++si >= sz)) {
-				/* nothing to escape, keep the backslash */
-				ti++;
+				/* the escaped character is in the next buffer */
+				*pend = '\\';
 				break;
 			}
 			switch (src[si]) {
@@ -1560,7 +1578,7 @@ chop_more:
 		char *restrict sp = p->stash + p->six;
 		size_t sz = sizeof(p->stash) - p->six;
 
-		p->six += esccpy(sp, sz, BP, BZ);
+		p->six += esccpy(sp, sz, BP, BZ, &p->pend);
 		if (eol != NULL) {
 			/* means at least we've seen a \n up there
 			 * leave a mark in the stash buffer so the
@@ -1579,7 +1597,7 @@ chop_more:
 		BI += llen;
 
 		/* copy to stash and unescape */
-		slen = esccpy(sp, slen, bp, llen);
+		slen = esccpy(sp, slen, bp, llen, &p->pend);
 		/* store new stash pointer */
 		p->six += slen;
 
